@@ -39,6 +39,7 @@ type RunCtx struct {
 	NonTrivial bool
 	States     map[uint64]struct{} // distinct canonical digests seen in this run
 	Sample     map[string]interface{}
+	Scheds     []string // schedule prefixes (first 16 picks) of the simulations of this run
 	tsan       bool
 	sim        *Sim
 	nfile      int
@@ -89,6 +90,11 @@ func (r *RunCtx) countN(name string, n int) {
 }
 
 func (r *RunCtx) state(d uint64) { r.States[d] = struct{}{} }
+
+func (r *RunCtx) sched(s *Sim) {
+	r.Scheds = append(r.Scheds, fmt.Sprintf("%d:%s", len(s.tasks), s.schedTrace))
+	r.state(hashString(string(s.schedTrace)))
+}
 
 // path returns a fresh relative-named file path inside the run's temp dir.
 func (r *RunCtx) path(kind string) string {
